@@ -78,6 +78,61 @@ class _FormattingHandler(_logging.Handler):
 _FORMATTING_HANDLER = _FormattingHandler()
 
 
+def host_env(debug_logging: bool, warnings_as_errors: bool):
+    """The host application's process-wide configuration around a library call: logging lowered to DEBUG with a handler that
+    formats every record, and / or warnings escalated to errors. Returns a context manager."""
+    import contextlib
+    import logging
+    import warnings
+    stack = contextlib.ExitStack()
+    if warnings_as_errors:
+        stack.enter_context(warnings.catch_warnings())
+        warnings.simplefilter("error")
+    if debug_logging:
+        lg = logging.getLogger("pydsdl")
+        old_state = (logging.root.manager.disable, lg.level, lg.propagate)
+        logging.disable(logging.NOTSET)
+        lg.setLevel(logging.DEBUG)
+        lg.addHandler(_FORMATTING_HANDLER)
+        lg.propagate = False
+
+        def _restore():
+            lg.removeHandler(_FORMATTING_HANDLER)
+            lg.setLevel(old_state[1])
+            lg.propagate = old_state[2]
+            logging.disable(old_state[0])
+        stack.callback(_restore)
+    return stack
+
+
+class HostedLibrary:
+    """`pydsdl` as a client sees it whose process runs with the given configuration: attribute access is forwarded to the real
+    module; serialize() / deserialize() run inside host_env()."""
+
+    def __init__(self, debug_logging: bool, warnings_as_errors: bool):
+        import pydsdl as _real
+        self._real = _real
+        self._env = (debug_logging, warnings_as_errors)
+
+    def __getattr__(self, name):
+        return getattr(self._real, name)
+
+    def serialize(self, *a, **kw):
+        with host_env(*self._env):
+            return self._real.serialize(*a, **kw)
+
+    def deserialize(self, *a, **kw):
+        with host_env(*self._env):
+            return self._real.deserialize(*a, **kw)
+
+
+def hosted_library(ws: dict) -> HostedLibrary:
+    import zlib
+    from ..core.scenario import cjson
+    h = zlib.crc32(b"host" + cjson(ws).encode("ascii"))
+    return HostedLibrary(h % 4 == 0, (h >> 4) % 3 == 0)
+
+
 class World:
     def __init__(self, scn: dict):
         self.scn = scn
@@ -304,27 +359,7 @@ class World:
             fn = pydsdl.read_files
         else:
             raise ValueError(op["op"])
-        import contextlib
-        import logging
-        import warnings
-        stack = contextlib.ExitStack()
-        if self.warnings_as_errors:
-            stack.enter_context(warnings.catch_warnings())
-            warnings.simplefilter("error")
-        if self.debug_logging:
-            lg = logging.getLogger("pydsdl")
-            old_state = (logging.root.manager.disable, lg.level, lg.propagate)
-            logging.disable(logging.NOTSET)
-            lg.setLevel(logging.DEBUG)
-            lg.addHandler(_FORMATTING_HANDLER)
-            lg.propagate = False
-
-            def _restore():
-                lg.removeHandler(_FORMATTING_HANDLER)
-                lg.setLevel(old_state[1])
-                lg.propagate = old_state[2]
-                logging.disable(old_state[0])
-            stack.callback(_restore)
+        stack = host_env(self.debug_logging, self.warnings_as_errors)
         try:
             with stack:
                 res = fn(*args, **kw)
